@@ -4,7 +4,10 @@ package main
 // scratch files outside /repo and /verif; the loop logic is modelled in Mxj.Model.Files).
 
 import (
+	"bytes"
+	"encoding/xml"
 	"fmt"
+	"io"
 	"os"
 	"path/filepath"
 	"strings"
@@ -25,8 +28,102 @@ func scratch() string {
 	return scratchDir
 }
 
+// tokensAll: the token stream of a whole file (several roots), and how it ended.
+func tokensAll(doc []byte) (string, string) {
+	d := xml.NewDecoder(bytes.NewReader(doc))
+	var sb strings.Builder
+	sb.WriteString("[ ")
+	fin := "bad"
+	for {
+		t, err := d.Token()
+		if err != nil {
+			if err == io.EOF {
+				fin = "eof"
+			}
+			break
+		}
+		switch x := t.(type) {
+		case xml.StartElement:
+			var as []XAttr
+			for _, a := range x.Attr {
+				as = append(as, XAttr{Space: a.Name.Space, Name: a.Name.Local, Value: a.Value})
+			}
+			sb.WriteString("[ " + encStr("S") + " " + encStr(x.Name.Space) + " " + encStr(x.Name.Local) + " " + encAttrs(as) + " ] ")
+		case xml.EndElement:
+			sb.WriteString("[ " + encStr("E") + " " + encStr(x.Name.Space) + " " + encStr(x.Name.Local) + " ] ")
+		case xml.CharData:
+			sb.WriteString("[ " + encStr("T") + " " + encStr(string(x)) + " ] ")
+		case xml.Comment:
+			sb.WriteString("[ " + encStr("C") + " " + encStr(string(x)) + " ] ")
+		case xml.ProcInst:
+			sb.WriteString("[ " + encStr("P") + " " + encStr(x.Target) + " " + encStr(string(x.Inst)) + " ] ")
+		case xml.Directive:
+			sb.WriteString("[ " + encStr("D") + " " + encStr(string(x)) + " ] ")
+		}
+	}
+	sb.WriteString("]")
+	return sb.String(), fin
+}
+
+// xfile / jfile: the file readers beside Mxj.Model.FilesXml.readMapsXml / Mxj.Model.Files.readMapsJson
+func c19LoopExec(op string) string {
+	c, name := newCur(op)
+	var content string
+	var o DecOpt
+	if name == "xfile" {
+		o = c.decOpt()
+		c.val()
+		c.val()
+		c.pos++
+		content = c.str()
+	} else {
+		content = c.str()
+	}
+	if c.err != nil {
+		return "bad-op " + c.err.Error()
+	}
+	file := filepath.Join(scratch(), "loop."+name)
+	defer os.Remove(file)
+	if err := os.WriteFile(file, []byte(content), 0o644); err != nil {
+		return "bad-gen " + err.Error()
+	}
+	var back mxj.Maps
+	var err error
+	var nraw int
+	var rawErr error
+	if name == "xfile" {
+		o.apply()
+		back, err = mxj.NewMapsFromXmlFile(file)
+		rb, e2 := mxj.NewMapsFromXmlFileRaw(file)
+		nraw, rawErr = len(rb), e2
+	} else {
+		mxj.JsonUseNumber = true
+		back, err = mxj.NewMapsFromJsonFile(file)
+		rb, e2 := mxj.NewMapsFromJsonFileRaw(file)
+		nraw, rawErr = len(rb), e2
+	}
+	l := make([]interface{}, 0, len(back))
+	for _, b := range back {
+		l = append(l, map[string]interface{}(b))
+	}
+	res := "ok " + enc(l)
+	if err != nil {
+		res += " failed"
+	} else {
+		res += " done"
+	}
+	note := ""
+	if nraw != len(back) || (rawErr == nil) != (err == nil) {
+		note = "the Raw file reader disagrees with the plain one"
+	}
+	return res + " | " + note
+}
+
 // implonly files kind indent maps cut
 func c19Exec(op string) string {
+	if strings.HasPrefix(op, "xfile ") || strings.HasPrefix(op, "jfile ") {
+		return c19LoopExec(op)
+	}
 	c, _ := newCur(op)
 	c.pos++ // "files"
 	kind := c.toks[c.pos]
@@ -218,6 +315,17 @@ func firstLine(s string) string {
 }
 
 func c19Describe(op string) string {
+	if strings.HasPrefix(op, "xfile ") || strings.HasPrefix(op, "jfile ") {
+		c, name := newCur(op)
+		if name == "xfile" {
+			o := c.decOpt()
+			c.val()
+			c.val()
+			c.pos++
+			return fmt.Sprintf("NewMapsFromXmlFile options=%+v file=%q", o, c.str())
+		}
+		return fmt.Sprintf("NewMapsFromJsonFile (JsonUseNumber) file=%q", c.str())
+	}
 	c, _ := newCur(op)
 	c.pos++
 	kind := c.toks[c.pos]
@@ -228,6 +336,30 @@ func c19Describe(op string) string {
 }
 
 func c19Judge(op, impl, model string) Verdict {
+	if strings.HasPrefix(op, "xfile ") || strings.HasPrefix(op, "jfile ") {
+		_, name := newCur(op)
+		v := Verdict{Tags: []string{name}}
+		if strings.HasPrefix(model, "skip-") || strings.HasPrefix(impl, "bad-gen") {
+			v.Skipped, v.CorrOK = true, true
+			return v
+		}
+		if strings.HasPrefix(impl, "panic") {
+			v.OracleFail = "file reader panicked: " + impl
+			v.Sig = name + ":panic"
+			return v
+		}
+		ip := splitModel(impl)
+		v.CorrOK = ip[0] == model
+		v.Nontrivial = strings.Contains(ip[0], "{")
+		if strings.HasSuffix(ip[0], " failed") {
+			v.Tags = append(v.Tags, name+":failed")
+		}
+		if len(ip) > 1 && ip[1] != "" {
+			v.OracleFail = ip[1]
+			v.Sig = name + ":" + strings.Join(strings.Fields(ip[1])[:3], "-")
+		}
+		return v
+	}
 	v := Verdict{Tags: []string{"files"}, CorrOK: true, Nontrivial: true}
 	if strings.HasPrefix(impl, "panic") {
 		v.OracleFail = "file/gob round trip panicked: " + impl
@@ -292,9 +424,53 @@ func (r *Rng) jsonFileMap(depth int) map[string]interface{} {
 	return m
 }
 
+// c19LoopGen: whole files for the loop correspondence - 0-4 documents with separators,
+// sometimes cut at a random byte or followed by junk.
+func c19LoopGen(r *Rng) string {
+	nd := r.Intn(5)
+	if r.Bool() {
+		content := r.Pick([]string{"", "\n", " ", "<!-- c -->\n"})
+		g := c01Gen0
+		g.MultiTextP, g.MaxDepth = 0, 2
+		for i := 0; i < nd; i++ {
+			var sb strings.Builder
+			r.render(r.xmlDoc(&g), &sb)
+			content += sb.String() + r.Pick([]string{"", "\n", "  \n", "<!-- between -->", "<?pi x?>\n"})
+		}
+		if r.P(25) && len(content) > 0 {
+			content = content[:r.Intn(len(content))]
+		} else if r.P(10) {
+			content += r.Pick([]string{"junk", "</x>", "<", "<a", "&", "<!--"})
+		}
+		o := r.decOpt(false)
+		o.Cast = false
+		toks, fin := tokensAll([]byte(content))
+		return fmt.Sprintf("xfile %s %s %s %s %s", o.enc(), strconvTable(nil), toks, fin, encStr(content))
+	}
+	content := r.Pick([]string{"", "\n", " "})
+	for i := 0; i < nd; i++ {
+		if r.P(70) {
+			content += r.jsonStreamDoc()
+		} else {
+			content += r.jsonText(r.jsonFileMap(0))
+		}
+		content += r.Pick([]string{"", "\n", "  ", "\n\n", ",", "x"})
+	}
+	if r.P(25) && len(content) > 0 {
+		content = content[:r.Intn(len(content))]
+	} else if r.P(10) {
+		content += r.Pick([]string{"}", "{", "{\"a\":", "null", "[1]", "\""})
+	}
+	return "jfile " + encStr(content)
+}
+
 func c19Gen(r *Rng, n int) []string {
 	var ops []string
 	for len(ops) < n {
+		if r.P(50) {
+			ops = append(ops, c19LoopGen(r))
+			continue
+		}
 		kind := r.Pick([]string{"xml", "json", "json", "gob"})
 		nm := 1 + r.Intn(4)
 		var l []interface{}
@@ -318,12 +494,12 @@ func c19Gen(r *Rng, n int) []string {
 func init() {
 	register(&Prop{
 		ID:        "C19",
-		Rule:      "lists of 1-4 Maps: XML-shaped (decoded from generated documents, escaping on) through XmlFile/XmlFileIndent and back, JSON Maps (non-null scalars; strings with braces, quotes, backslashes, trailing backslash; empty objects) through JsonFile/JsonFileIndent and back, both also through the Raw readers; gob and Copy round trips; 30% of the files truncated at a random offset (Maps of the complete documents, then an error); scratch files under the system temp dir, removed after each case; non-trivial = every case; distinct = distinct op lines",
+		Rule:      "lists of 1-4 Maps: XML-shaped (decoded from generated documents, escaping on) through XmlFile/XmlFileIndent and back, JSON Maps (non-null scalars; strings with braces, quotes, backslashes, trailing backslash; empty objects) through JsonFile/JsonFileIndent and back, both also through the Raw readers; gob and Copy round trips; 30% of the files truncated at a random offset (Maps of the complete documents, then an error); whole files (0-4 generated XML documents / JSON objects with separators, 25% cut at a random byte, 10% followed by junk) read by NewMapsFromXmlFile / NewMapsFromJsonFile (and the Raw forms) beside the Lean file loops readMapsXml (on the real token stream of the file) / readMapsJson (on the bytes); scratch files under the system temp dir, removed after each case; non-trivial = every case of the first kind, a file yielding at least one Map for the second; distinct = distinct op lines",
 		Gen:       c19Gen,
 		Exec:      c19Exec,
 		Judge:     c19Judge,
 		Describe:  c19Describe,
-		QuickN:    500,
-		ThoroughN: 20000,
+		QuickN:    1500,
+		ThoroughN: 60000,
 	})
 }
